@@ -10,7 +10,6 @@ import (
 	"github.com/thanos-community/promql-engine/zzverif/sym"
 )
 
-// every second shape (even index) is also run with three series in the thorough tier
 var verifDistQueries = []string{
 	`count(foo)`,
 	`group(foo)`,
@@ -32,6 +31,10 @@ var verifDistQueries = []string{
 	// over its own storage (which holds the union), in both operand orders
 	`count by (a) (foo) + on(a) group_right clamp_min(foo, 0)`,
 	`clamp_min(foo, 0) + on(a) group_left count by (a) (foo)`,
+	// aggregations nested in an aggregation of the same kind
+	`count(count by (a) (foo))`,
+	`max(max by (a) (foo))`,
+	`sum(sum by (a) (foo))`,
 }
 
 // verifSameMatrix asserts that two range results are the same set of series and points.
@@ -75,8 +78,7 @@ func verifSameMatrix(site string, a, b *promql.Result, knownID string, region bo
 // VerifH10p: a query through the distributed engine over disjoint partitions returns
 // what one engine returns over the union (whole pipeline on both sides, symbolic data).
 func VerifH10p() {
-	qi := sym.Choice("query", len(verifDistQueries))
-	qs := verifDistQueries[qi]
+	qs := verifDistQueries[sym.Choice("query", len(verifDistQueries))]
 	start := sym.Int64("start", 0, verifR)
 	step := sym.Int64("step", 1, verifR)
 	lookback := sym.Int64("lookback", 1, verifR)
@@ -90,8 +92,9 @@ func VerifH10p() {
 	var union []*stub.Series
 	zombie := false
 	parts := [][]*stub.Series{nil, nil}
-	// quick: two series; thorough: three series for every second query shape
-	if sym.Tier(0, 1) == 0 || qi%2 == 1 {
+	// quick: two series; thorough: three series for six of the shapes
+	three := map[string]bool{`count(foo)`: true, `foo`: true, `avg(foo)`: true, `sum by (b) (foo)`: true, `sum(foo)`: true, `count(count by (a) (foo))`: true}
+	if sym.Tier(0, 1) == 0 || !three[qs] {
 		lbls = lbls[:2]
 	}
 	for k, l := range lbls {
